@@ -384,6 +384,15 @@ func handleOne(t e1.Task, p Params) (*e1.Result, map[uint64]struct{}) {
 		r1.Close()
 		r2.Close()
 	}
+	// c08 on a stream that fails: the reference is the sequential twin on a source failing in the same way
+	faulty := p.Mode == "c08" && p.Src.Kind == "fault"
+	var refFV bool
+	var refFErr error
+	if faulty {
+		rr := seam.NewRun(sc)
+		refFV, refFErr = w.Seq(MakeSource(p.Src, rr.Stream(w.S, w.N)))
+		rr.Close()
+	}
 	orders := map[uint64]struct{}{}
 	assign := map[uint64]struct{}{}
 	// one reusable stream buffer; ids are patched per execution
@@ -509,6 +518,10 @@ func handleOne(t e1.Task, p Params) (*e1.Result, map[uint64]struct{}) {
 					v.Violation = earlier
 				} else if verdict || err == nil {
 					v.Violation = fmt.Sprintf("source failed (%s) but the workflow returned (%v, %v)", p.Src, verdict, errs)
+				}
+			case faulty:
+				if verdict != refFV || (err == nil) != (refFErr == nil) {
+					v.Violation = fmt.Sprintf("source failing as %s: parallel (%v, %v), sequential (%v, %v)", p.Src, verdict, err, refFV, refFErr)
 				}
 			default:
 				switch {
